@@ -634,6 +634,10 @@ func (vc *VC) evalCall(x *ECall, env *Env, st, old *State) Val {
 			panic(unsupported("sliceof: the dynamic value of the interface is not known here"))
 		}
 		return *a.Inner
+	case "strof":
+		a := arg(0)
+		vc.declareRaw("fun:iface_str", "(declare-fun iface_str (Int) Str)")
+		return Val{K: KStr, T: types.Typ[types.String], S: sx("iface_str", a.S)}
 	case "intof":
 		a := arg(0)
 		vc.declareRaw("fun:iface_int", "(declare-fun iface_int (Int) Int)")
